@@ -750,8 +750,9 @@ class MessageManager(ClientLike):
                 data.msg_type[i] = mt
                 data.msg_count[i] = count
 
-                if (n % cd.MESSAGE_TRAFFIC_SIZE) == 0:
-                    nsent = n
+                # Send once the sub-message is full
+                if (n % cd.MESSAGE_TRAFFIC_SIZE) == cd.MESSAGE_TRAFFIC_SIZE - 1:
+                    nsent = n + 1
                     self.send_message(data)
                     sub_seqno += 1
 
